@@ -29,6 +29,7 @@ type mixGen struct {
 	ruleAddr []string
 	kinds    map[string]int
 	drained  bool
+	blocked  map[string]bool // pair -> its destination currently black-lists its source (as far as the generator knows)
 }
 
 type mixGroup struct {
@@ -40,7 +41,7 @@ type mixGroup struct {
 }
 
 func newMixGen(w *harness.World, rng *rand.Rand) *mixGen {
-	g := &mixGen{w: w, rng: rng, ix: model.NewIx(), voted: map[string]int{}, kinds: map[string]int{},
+	g := &mixGen{w: w, rng: rng, ix: model.NewIx(), voted: map[string]int{}, kinds: map[string]int{}, blocked: map[string]bool{},
 		chains: []string{harness.ChainA, harness.ChainB, harness.ChainC}}
 	g.pairs = []ixPairDef{
 		{ixServices[0], ixServices[2], true, false}, {ixServices[2], ixServices[0], true, false},
@@ -101,6 +102,23 @@ func (g *mixGen) genBlock(h uint64) []pb.Transaction {
 	n := 1 + r.Intn(7)
 	if r.Intn(12) == 0 {
 		n = 0
+	}
+	if len(g.pairs) > 0 && r.Intn(5) == 0 {
+		// the destination of a pair that carries traffic starts / stops blocking the pair's source, by a
+		// black-list-only UpdateService (applied at once, mirrored into the executor's service cache)
+		p := g.pairs[r.Intn(len(g.pairs))]
+		if parts := strings.Split(p.to, ":"); len(parts) == 3 && parts[0] == harness.BxhID {
+			svc := parts[1] + ":" + parts[2]
+			bl := p.from
+			if g.blocked[p.from+"|"+p.to] {
+				bl = ""
+			}
+			if t, ok := w.PermitOnlyUpdate(harness.ChainAdmin(parts[1]), svc, bl); ok {
+				g.blocked[p.from+"|"+p.to] = bl != ""
+				txs = append(txs, t)
+				g.note("gov-service-blacklist-toggle")
+			}
+		}
 	}
 	for i := 0; i < n; i++ {
 		x := r.Intn(100)
@@ -236,6 +254,23 @@ func (g *mixGen) govTx() pb.Transaction {
 		g.note("gov-service-register")
 		return w.BVM(ca, harness.AddrService, "RegisterService", pb.String(chain), pb.String(fmt.Sprintf("s%d", 3+r.Intn(3))), pb.String(fmt.Sprintf("svcname-%d", r.Intn(1000))), pb.String("CallContract"), pb.String("intro"),
 			pb.Uint64(uint64(r.Intn(2))), pb.String(""), pb.String("details"), pb.String("reason"))
+	case x < 55:
+		// black list only: applied at once and mirrored into the executor's service cache
+		bl := []string{"", harness.FullID(harness.ChainA, "s1"), harness.FullID(harness.ChainB, "s1") + "," + harness.FullID(harness.ChainC, "s1")}[r.Intn(3)]
+		if len(g.pairs) > 0 && r.Intn(4) != 0 {
+			// aim at a pair that carries traffic: its destination starts / stops blocking its source
+			p := g.pairs[r.Intn(len(g.pairs))]
+			if parts := strings.Split(p.to, ":"); len(parts) == 3 && parts[0] == harness.BxhID {
+				svc, ca = parts[1]+":"+parts[2], harness.ChainAdmin(parts[1])
+				bl = []string{"", p.from, p.from}[r.Intn(3)]
+			}
+		}
+		if t, ok := w.PermitOnlyUpdate(ca, svc, bl); ok {
+			g.note("gov-service-blacklist-update")
+			return t
+		}
+		g.note("gov-service-update")
+		return w.BVM(actor, harness.AddrService, "UpdateService", pb.String(svc), pb.String(fmt.Sprintf("newname-%d", r.Intn(1000))), pb.String("intro2"), pb.String(""), pb.String("details2"), pb.String("reason"))
 	case x < 58:
 		g.note("gov-service-update")
 		return w.BVM(actor, harness.AddrService, "UpdateService", pb.String(svc), pb.String(fmt.Sprintf("newname-%d", r.Intn(1000))), pb.String("intro2"), pb.String(""), pb.String("details2"), pb.String("reason"))
